@@ -266,6 +266,8 @@ def evaluate__instance_expression(self: XPathToken, context: ta.ContextType = No
             qname = get_expanded_name(type_name, self.parser.namespaces)
         except KeyError as err:
             raise self.error('XPST0081', "namespace prefix {} not found".format(err))
+        except ValueError as err:
+            raise self.error('XPST0003', err) from None
 
         for position, item in enumerate(self[0].select(context)):
             try:
@@ -317,6 +319,8 @@ def evaluate__treat_expression(self: XPathToken, context: ta.ContextType = None)
             qname = get_expanded_name(type_name, self.parser.namespaces)
         except KeyError as err:
             raise self.error('XPST0081', 'prefix {} not found'.format(str(err)))
+        except ValueError as err:
+            raise self.error('XPST0003', err) from None
 
         if not qname.startswith('{') and not QName.is_valid(qname):
             raise self.error('XPST0003')
@@ -364,6 +368,8 @@ def evaluate__cast_expressions(self: XPathToken, context: ta.ContextType = None)
         atomic_type = get_expanded_name(type_name, self.parser.namespaces)
     except KeyError as err:
         raise self.error('XPST0081', 'prefix {} not found'.format(str(err)))
+    except ValueError as err:
+        raise self.error('XPST0003', err) from None
 
     if atomic_type in (XSD_NOTATION, XSD_ANY_ATOMIC_TYPE):
         raise self.error('XPST0080')
@@ -800,7 +806,12 @@ def select__schema_attribute_kind_test(self: XPathFunction, context: ta.ContextT
         raise self.missing_context()
 
     attribute_name = self[0].source
-    qname = get_expanded_name(attribute_name, self.parser.namespaces)
+    try:
+        qname = get_expanded_name(attribute_name, self.parser.namespaces)
+    except KeyError as err:
+        raise self.error('XPST0081', 'prefix {} not found'.format(str(err)))
+    except ValueError as err:
+        raise self.error('XPST0003', err) from None
 
     for _ in context.iter_children_or_self():
         if self.parser.schema is None:
@@ -824,7 +835,12 @@ def select__schema_element_kind_test(self: XPathFunction, context: ta.ContextTyp
         raise self.missing_context()
 
     element_name = self[0].source
-    qname = get_expanded_name(element_name, self.parser.namespaces)
+    try:
+        qname = get_expanded_name(element_name, self.parser.namespaces)
+    except KeyError as err:
+        raise self.error('XPST0081', 'prefix {} not found'.format(str(err)))
+    except ValueError as err:
+        raise self.error('XPST0003', err) from None
 
     if self.parser.schema is not None:
         for _ in context.iter_children_or_self():
